@@ -636,3 +636,25 @@ func Advance(d int64) { S.Clock += d }
 
 //go:norace
 func NPoints() int { return len(S.Points) }
+
+// RunRaw runs body as a purely sequential program: shim operations are neither points nor blocking
+// (used by the sequence/input enumerations on data structures that start no goroutines).
+//
+//go:norace
+func RunRaw(body func()) (crash string) {
+	s := &Sched{raw: true, endc: make(chan struct{}, 1)}
+	S = s
+	for _, f := range ResetHooks {
+		f()
+	}
+	m := s.newThread("main", "main", false)
+	s.cur = m
+	defer func() {
+		if r := recover(); r != nil {
+			crash = fmt.Sprint(r)
+		}
+		S = nil
+	}()
+	body()
+	return ""
+}
